@@ -335,7 +335,9 @@ pub fn run_c18(ctx: &Ctx) -> Report {
         rep.case(format!("CDiscConv {} {} {}", v, emit::blob(&bytes), back), true);
     }
     for l in 0..=20usize {
-        let s = rng.bytes(l);
+        let s0 = rng.bytes(l);
+        let shifted = emit::Shifted::new(&s0, l * 3 + 1); // not at an aligned address
+        let s = shifted.bytes();
         let r = catch(|| ArrayDiscriminator::try_from(&s[..]).map(|d| <[u8; 8]>::from(d).to_vec()));
         rep.count(if r.is_ok() { "conv:slice:ok" } else { "conv:slice:err" });
         if r.is_ok() != (l == 8) || matches!(&r, Res::Ok(v) if v[..] != s[..]) {
